@@ -35,6 +35,9 @@ class DataModels:
             raise PyExc('AttributeError', line_of(node), 'None.%s' % attr)
         if isinstance(b, SRec):
             if attr in b.fields:
+                pr = b.present.get(attr, True)
+                if pr is not True and not I.pure and not I.ctx.branch(pr):
+                    raise PyExc('AttributeError', line_of(node), attr)
                 return b.fields[attr]
             if attr in ('get', 'items', 'keys', 'values', 'copy', 'update', '__copy__'):
                 return BoundMethod(b, attr)
@@ -103,6 +106,9 @@ class DataModels:
         if isinstance(b, SRec):
             if isinstance(k, str):
                 if k in b.fields:
+                    pr = b.present.get(k, True)
+                    if pr is not True and not I.pure and not I.ctx.branch(pr):
+                        raise PyExc('KeyError', ln, k)
                     return b.fields[k]
                 raise PyExc('KeyError', ln, k)
             raise Unsupported('record subscript with non-constant key')
@@ -623,6 +629,8 @@ class DataModels:
         if isinstance(proto, Code):
             return Code(leaf(BoolS, '.isname'), leaf(StrS, '.name'), leaf(IntS, '.raw'))
         if isinstance(proto, SRec):
+            if proto.tag is not None:
+                raise Unsupported('havoc of a list of tagged records: declare a shape in the loop contract')
             return SRec({k: self.indexed_like(I, v, name + '.' + k, idx) for k, v in proto.fields.items()}, proto.kind)
         if isinstance(proto, tuple):
             return tuple(self.indexed_like(I, v, '%s.%d' % (name, i), idx) for i, v in enumerate(proto))
